@@ -242,13 +242,14 @@ def run_scenario(sc):
     for tf in sc['tfs']:
         cfg.tf = tf
         n0 = len(script.log)
+        t_start = float(dae.t)
         with contextlib.redirect_stdout(sink):
             ok = tds.run(no_summary=True)
         if not obs['segs']:
             obs['sw'] = [float(x) for x in ss.switch_times]
             obs['freq_n'] = int(dae.n)
         guard = bool((dae.t - tds.h < cfg.tf) and not tds.busted)
-        obs['segs'].append({'used': len(script.log) - n0, 't': float(dae.t), 'h': float(tds.h),
+        obs['segs'].append({'used': len(script.log) - n0, 't': float(dae.t), 't_start': t_start, 'h': float(tds.h),
                             'deltat': float(tds.deltat), 'dmin': float(tds.deltatmin),
                             'dmax': float(tds.deltatmax), 'idx': int(tds._switch_idx), 'niter': int(tds.niter),
                             'converged': bool(tds.converged), 'busted': bool(tds.busted),
